@@ -3,7 +3,7 @@ import itertools
 import random
 
 from common import Recorder, guarded, main
-from gen import specs1, specs, build_fiber, build_tensor, spec_key, random_spec
+from gen import specs1, specs, build_fiber, build_tensor, spec_key, random_spec, scale_spec
 from spec.oracle import raw, is_fiber, is_box, unbox, content, tensor_snapshot, wf_problems, rb_problems, spec_content
 
 from fibertree import Fiber, Tensor, Payload
@@ -200,10 +200,21 @@ def run(tier, seed):
         zd = rnd.choice([0, 0, 1])
         rec.case("depth2-wide", (spec_key(zspec), spec_key(aspec), tuple(body), zd))
         populate(rec, "depth2-wide", 2, 4, zspec, aspec, body, zd)
+    # at scale: seeded random pairs far outside the enumerated scope
+    for _ in range(80 if tier == "quick" else 1000):
+        zspec, nz = scale_spec(rnd)
+        aspec, na = scale_spec(rnd, vals=(1, 2), count=rnd.choice([2, 3, 5, 12, 40]))    # sparse sources jump far ahead in z
+        if rnd.random() < 0.5:
+            aspec.update({c: 1 for c in rnd.sample(sorted(zspec), len(zspec) // 2)})
+        nn = max(nz, na, max(aspec) + 1)
+        body = [rnd.choice(ACTIONS) for _ in range(rnd.randint(1, 7))]
+        zd = rnd.choice([0, 0, 1])
+        rec.case("scale", (spec_key(zspec), spec_key(aspec), tuple(body), zd))
+        populate(rec, "scale", 1, nn, zspec, aspec, body, zd)
     return rec.result("destination x source pairs over 3 coordinates with payloads {absent,0,1,2} x every body (assign/accumulate/leave/reset/set per "
                       "offered reference, all sequences up to the number of offered references) x destination default {0,1}; uncompressed sources; "
                       "nested populate over depth-2 pairs (2 coordinates, incl. empty sub-fibers) x 9 body patterns and seeded random depth-2/3 pairs; "
-                      "WF and rank lists checked at every yield")
+                      "WF and rank lists checked at every yield; plus seeded random depth-1 pairs at scale (10-80 elements, coordinates to 700)")
 
 
 def replay(case):
